@@ -28,6 +28,10 @@ pub enum Tok {
     Append,
     /// a b pushall: for g in b { a.push_back(g) }
     PushAll,
+    /// a b pushfront: for g in b.rev() { a.push_front(g) }  (= b * a; the ring buffer of `a` wraps around)
+    PushFront,
+    /// a b cycle: a * b assembled by pop_front / push_back rotations of the queue (ring buffer wraps)
+    Cycle,
 }
 
 pub type Prog = Vec<Tok>;
@@ -52,6 +56,8 @@ pub fn prog_text(p: &Prog) -> String {
             Tok::MulAssign => s.push_str("mulassign"),
             Tok::Append => s.push_str("append"),
             Tok::PushAll => s.push_str("pushall"),
+            Tok::PushFront => s.push_str("pushfront"),
+            Tok::Cycle => s.push_str("cycle"),
         }
     }
     s
@@ -99,6 +105,8 @@ pub fn parse_prog(text: &str) -> Option<Prog> {
                 "mulassign" => Tok::MulAssign,
                 "append" => Tok::Append,
                 "pushall" => Tok::PushAll,
+                "pushfront" => Tok::PushFront,
+                "cycle" => Tok::Cycle,
                 _ => return None,
             });
             i += 1;
@@ -188,6 +196,34 @@ pub fn build(p: &Prog) -> Built {
                     let mut a = st.pop().expect("stack");
                     for g in b.iter() {
                         a.push_back(g.clone());
+                    }
+                    st.push(a);
+                }
+                Tok::PushFront => {
+                    let b = st.pop().expect("stack");
+                    let mut a = st.pop().expect("stack");
+                    for g in b.iter().rev() {
+                        a.push_front(g.clone());
+                    }
+                    st.push(a);
+                }
+                Tok::Cycle => {
+                    // b is pushed to the back, then the whole queue is rotated once around through
+                    // pop_front / push_back: same element order, physically wrapped storage
+                    let b = st.pop().expect("stack");
+                    let mut a = st.pop().expect("stack");
+                    for g in b.iter() {
+                        a.push_back(g.clone());
+                    }
+                    let n = a.len();
+                    for _ in 0..n {
+                        if let Some(g) = a.pop_front() {
+                            a.push_back(g);
+                        }
+                    }
+                    if n > 1 {
+                        a.rotate_left(1);
+                        a.rotate_right(1);
                     }
                     st.push(a);
                 }
@@ -343,10 +379,12 @@ pub fn gen_prog(r: &mut Rng, cfg: &GenCfg, depth: usize) -> Prog {
             let k = r.range(1, 3);
             for _ in 0..k {
                 p.extend(gen_prog(r, cfg, depth + 1));
-                p.push(match r.below(6) {
+                p.push(match r.below(9) {
                     0 => Tok::MulAssign,
                     1 => Tok::Append,
                     2 => Tok::PushAll,
+                    3 | 4 => Tok::PushFront,
+                    5 => Tok::Cycle,
                     _ => Tok::Mul,
                 });
             }
